@@ -45,6 +45,9 @@ class RandomModel(Model):
             t = st.fresh("randint", IntS)
             st.assume(z3.And(a.t <= t, t <= b.t))
             return VInt(t)
+        if d in ("tqdm.auto.tqdm", "tqdm.tqdm"):
+            args, kwargs = eng.eval_args(st, node)
+            return args[0]
         if d == "time.sleep":
             eng.eval_args(st, node)
             return VNone()
@@ -66,6 +69,10 @@ class LocalCallModel(Model):
         eng = self.eng
         reg = eng.reg
         target = eng.imports.get(name, name)
+        if target in ("tqdm.auto.tqdm", "tqdm.tqdm"):
+            # progress bar: iterates its first argument unchanged
+            args, kwargs = eng.eval_args(st, node)
+            return args[0]
         short = target.split(".")[-1]
         fc = reg.find_function(short)
         if fc is not None:
@@ -230,7 +237,19 @@ PJOIN = z3.Function("PJOIN", U, U, U)
 
 
 class PathModel(Model):
-    """pathlib: `a / b` is an opaque join of two opaque values."""
+    """pathlib: `a / b` is an opaque join of two opaque values; Path(x) of a
+    path / string is that path; Path() is the empty relative path."""
+
+    def call_global(self, st, name, node):
+        if name == "Path" and self.eng.imports.get("Path", "").startswith(
+                "pathlib"):
+            if not node.args:
+                return VU(self.eng.strconst("."))
+            if len(node.args) == 1:
+                v = self.eng.eval(st, node.args[0])
+                if isinstance(v, VU):
+                    return v
+        return NotImplemented
 
     def binop(self, st, op, a, b, line):
         if isinstance(op, ast.Div) and isinstance(a, VU) and isinstance(b, VU):
